@@ -31,9 +31,34 @@ def std_bindings() -> Dict[str, Any]:
     return {n: _eval_ctor(c) for n, (_t, c) in A.VARS.items()}
 
 
+class _Timeout(BaseException):
+    """raised by the SIGALRM handler; a BaseException so that no `except Exception` in celpy swallows it"""
+
+
+def _on_alarm(signum, frame):
+    raise _Timeout()
+
+
+EVAL_TIMEOUT_S = 4.0
+
+
 def run_one(src: str, runner: str, bindings: Dict[str, Any], package: Optional[str]) -> str:
     """value canon | `err` (CELEvalError from evaluate) | `parse-error` | `CONSTRUCT <cls>` (program() failed)
-    | `EXC <cls>` (anything else escaping evaluate)"""
+    | `EXC <cls>` (anything else escaping evaluate) | `TIMEOUT` (no verdict: error messages of nested
+    `||` folds grow exponentially in the unchanged code, some inputs take minutes)"""
+    import signal
+    old = signal.signal(signal.SIGALRM, _on_alarm)
+    signal.setitimer(signal.ITIMER_REAL, EVAL_TIMEOUT_S)
+    try:
+        return _run_one(src, runner, bindings, package)
+    except _Timeout:
+        return "TIMEOUT"
+    finally:
+        signal.setitimer(signal.ITIMER_REAL, 0)
+        signal.signal(signal.SIGALRM, old)
+
+
+def _run_one(src: str, runner: str, bindings: Dict[str, Any], package: Optional[str]) -> str:
     import celpy
     from celpy.evaluation import CELEvalError
     try:
@@ -65,7 +90,7 @@ def run_one(src: str, runner: str, bindings: Dict[str, Any], package: Optional[s
 class mem_cap:
     """cap the address space while the implementation runs: `bytes(9223372036854775807)`-style inputs (sequence
     repetition, huge allocations) then end in MemoryError in both runners instead of exhausting the machine"""
-    CAP = 8 * 2**30
+    CAP = 3 * 2**30
 
     def __enter__(self):
         import resource
@@ -600,6 +625,8 @@ class C03(Prop):
         if not mm:
             return m
         i, k = split_io(impl)
+        if i == "TIMEOUT" or k == "TIMEOUT":
+            return impl
         mi, mk = mm.group(1), mm.group(2)
         # the model has no say where a primitive outside its concrete fragment was reached
         ei = i if mi == "skip" else mi
@@ -619,6 +646,8 @@ class C03(Prop):
             return self._oracle_law(c, out)
         i, k = split_io(out)
         src = self._src_binds(c)[0]
+        if i == "TIMEOUT" or k == "TIMEOUT":
+            return None
         if i == "parse-error" or k == "parse-error":
             if i != k:
                 return f"{src!r}: parse outcome differs between runner kinds: interpreter {i}, compiled {k}"
